@@ -332,8 +332,9 @@ def apply_contract(ip: Interp, c: Contract, recv, args, kwargs, n):
             if not p.feasible(z3.BoolVal(True)):
                 raise PathEnd()
             raise Raised(exc)
-    for origin_cls in c.propagates:
-        # an arbitrary other exception (e.g. from user semantics) passes through unchanged
+    if c.propagates:
+        # an arbitrary other exception (e.g. from user semantics) passes through unchanged;
+        # `propagates` lists what is known about the state then
         b = p.fresh(f'exit_{short}_other', z3.BoolSort())
         if p.fork(b):
             havoc_paths(ip, env, c.modifies, short)
@@ -341,6 +342,10 @@ def apply_contract(ip: Interp, c: Contract, recv, args, kwargs, n):
             p.assume(ip.w.exc.in_range(cid))
             p.assume(z3.Not(ip.w.exc.is_sub(cid, 'ParseException')))
             exc = ExcV(cid, p.fresh('eid', z3.IntSort()), origin=f'callee:{short}:other')
+            env['exc'] = exc
+            for clause in c.propagates:
+                if clause != 'other':
+                    p.assume(spec_eval_env(ip, clause, env))
             raise Raised(exc)
     havoc_paths(ip, env, c.modifies, short)
     result = mk_symbolic(ip, c.ret, f'{short}.result')
@@ -465,6 +470,16 @@ def _run_path(ip: Interp, c: Contract, fn: ast.FunctionDef, cls):
         wf_assume(ip, env[name], sortname)
     for clause in c.requires:
         p.assume(spec_eval_env(ip, clause, env))
+    if any(ast.unparse(d) in ('contextmanager', 'contextlib.contextmanager') for d in fn.decorator_list):
+        if 'body' not in c.ghost:
+            raise ContractBindError(f'{c.key}: a @contextmanager needs a ghost `body` parse function')
+        gen = ip.w.registry.generic[c.ghost['body'].split(':', 1)[1]]
+        ip.yielded = 0
+
+        def _cb(_value, ip=ip, gen=gen):
+            apply_contract(ip, gen, None, [ip.env['body'], ip.env['self']], {}, fn)
+
+        ip.yield_cb = _cb
     ip._param_mutable = {}
     for name in c.sig:
         env[f'old_{name}'] = snapshot(env[name])
@@ -522,8 +537,13 @@ def _exceptional_exit(ip: Interp, c: Contract, exc: ExcV, fn):
             env[name] = env[f'old_{name}']
     env['exc'] = exc
     if exc.origin and exc.origin.endswith(':other') and c.propagates:
-        # an exception of user code passing through unchanged: allowed
-        p.oblige('propagate', z3.BoolVal(True), fn, 'foreign exception propagates unchanged')
+        # an exception of user code passing through unchanged: allowed, with the stated state
+        p.oblige('propagate', z3.BoolVal(True), fn, 'foreign exception propagates unchanged', tag='property')
+        sub = Interp(p, None, env, spec=True, fname=f'{ip.fname}<propagates>')
+        for clause in c.propagates:
+            if clause != 'other':
+                t = sub.truth(sub.ev(ast.parse(clause.strip(), mode='eval').body))
+                p.oblige('propagate', t if z3.is_expr(t) else z3.BoolVal(bool(t)), fn, f'while a foreign exception propagates: {clause}')
         return
     for cls, clauses in c.raises.items():
         cond = ip.w.exc.is_sub(exc.cls, cls)
